@@ -6,6 +6,9 @@ package model
 import (
 	meshconfig "istio.io/api/mesh/v1alpha1"
 	"istio.io/istio/pkg/config"
+	"k8s.io/apimachinery/pkg/types"
+
+	"istio.io/istio/pkg/config/host"
 	"istio.io/istio/pkg/config/mesh"
 	"istio.io/istio/pkg/config/mesh/meshwatcher"
 	"istio.io/istio/pkg/kube/krt"
@@ -62,4 +65,14 @@ func VerifEnv(m *meshconfig.MeshConfig, store *VerifStore) *Environment {
 // VerifInitAuthenticationPolicies runs the real snapshot construction for authentication policies.
 func VerifInitAuthenticationPolicies(env *Environment) *AuthenticationPolicies {
 	return initAuthenticationPolicies(env)
+}
+
+// VerifConsolidatedDR builds a consolidated DestinationRule that was merged from the given rules.
+func VerifConsolidatedDR(rule *config.Config, from ...types.NamespacedName) *ConsolidatedDestRule {
+	return &ConsolidatedDestRule{rule: rule, from: from}
+}
+
+// VerifScopeWithDRs builds a SidecarScope whose destination-rule index holds the given rules for host h.
+func VerifScopeWithDRs(namespace string, h host.Name, drs ...*ConsolidatedDestRule) *SidecarScope {
+	return &SidecarScope{Namespace: namespace, destinationRules: map[host.Name][]*ConsolidatedDestRule{h: drs}}
 }
